@@ -177,6 +177,38 @@ def ob_point_union(ka, kb, timeout):
     return Ob("punion-%dx%d" % (ka, kb), F(*names), body, pre, fmode="real", timeout=timeout, funcs=[FUNCS[0], FUNCS[5]], bounds="A %d points, B %d points" % (ka, kb))
 
 
+def ob_demarcators(timeout):
+    """non-default demarcators, and the names of the results"""
+    names = ["hi", "as0", "ae0", "bs0", "be0"]
+
+    def pre(hi, a0, a1, b0, b1):
+        return ivs_wf_pre(0.0, hi, a0, a1) & ivs_wf_pre(0.0, hi, b0, b1) & (hi <= 1024.0) & sep(0.0, hi, a0, a1, b0, b1)
+
+    def body(hi, a0, a1, b0, b1):
+        ta = IntervalTier("A", [Interval(a0, a1, "x")], 0.0, hi)
+        tb = IntervalTier("B", [Interval(b0, b1, "p")], 0.0, hi)
+        ov = R.overlaps(a0, a1, b0, b1)
+        it = ta.intersection(tb, "+")
+        ml = ta.mergeLabels(tb, ";")
+        lo = a0 if a0 > b0 else b0
+        up = a1 if a1 < b1 else b1
+        if tuples(it.entries) != ([(lo, up, "x+p")] if ov else []):
+            return "intersection with demarcator '+'"
+        if tuples(ml.entries) != ([(a0, a1, "x(p)")] if ov else []):
+            return "mergeLabels with demarcator ';'"
+        tb2 = IntervalTier("B", [Interval(b0, b1, "p"), Interval(hi, hi + 1.0, "q")], 0.0, hi + 1.0)
+        ta2 = IntervalTier("A", [Interval(a0, hi + 1.0, "x")], 0.0, hi + 1.0) if a0 < b0 else None
+        if ta2 is not None:
+            m2 = tuples(ta2.mergeLabels(tb2, ";").entries)
+            if m2 != [(a0, hi + 1.0, "x(p;q)")]:
+                return "mergeLabels joins several labels with the demarcator in time order"
+        if (it.minTimestamp, it.maxTimestamp) != (0.0, hi) or (ml.minTimestamp, ml.maxTimestamp) != (0.0, hi):
+            return "span follows the source tier"
+        return True
+
+    return Ob("demarcators-1x1", F(*names), body, pre, fmode="real", timeout=timeout, funcs=FUNCS[2:4], bounds="1x1 (and 1x2 for mergeLabels) intervals, demarcators '+' and ';'")
+
+
 def ob_inter_ieee(timeout):
     """binary64: intersection/mergeLabels of 1x1 intervals keep an overlap of one ulp and drop
     mere touching (no tolerance in the overlap test)"""
@@ -244,6 +276,7 @@ def obligations(tier):
         obs.append(ob_point_union(2, 2, 120))
         obs.append(ob_point_union_spans(300))
         obs.append(ob_inter_ieee(300))
+        obs.append(ob_demarcators(200))
         obs.append(ob_union(0, 1, 30))
         obs.append(ob_diff_inter(1, 0, 30))
     else:
@@ -256,4 +289,5 @@ def obligations(tier):
             obs.append(ob_point_union(ka, kb, 900))
         obs.append(ob_point_union_spans(1800))
         obs.append(ob_inter_ieee(1800))
+        obs.append(ob_demarcators(600))
     return obs
